@@ -560,44 +560,46 @@ Lemma run_entries_ok rs : forall s, wf s ->
   Forall (good_answer (is_bucket (h_typ s)) (h_limit s) (h_burst s)) (answers_with false cs ans) /\
   Forall (is_count_pair (is_bucket (h_typ s)) (h_limit s) (h_burst s)) (answers_with true cs ans) /\
   (answers_with true cs ans = [] ->
-     rec_sum1 (h_quotas (fst r)) <= Z.max (h_limit s) (rec_sum1 (h_quotas s))).
+     rec_sum1 (h_quotas (fst r)) <= Z.max (h_limit s) (rec_sum1 (h_quotas s))) /\
+  rec_sum1 (h_oquotas (fst r)) <= rec_sum1 (h_oquotas s).
 Proof.
   induction rs as [|e rest IH]; intros s W.
   - cbn. split; [exact W|]. split; [repeat split|]. split; [reflexivity|].
-    split; [constructor|]. split; [constructor|]. intros _. lia.
+    split; [constructor|]. split; [constructor|]. split; [intros _; lia|lia].
   - cbn [run_entries].
     destruct e as [i typed count used level up clients|i].
     + cbn [sop_of_entry].
       pose proof (rep_step s i typed count used level up clients W) as RS. cbv zeta in RS.
       destruct (sstep s (SRep i typed count used level up clients)) as [s1 a] eqn:E1. cbn [fst snd] in RS.
-      destruct RS as (W1 & (T1 & L1 & B1) & _ & qb & -> & Hcnt & Hall).
+      destruct RS as (W1 & (T1 & L1 & B1) & O1 & qb & -> & Hcnt & Hall).
       specialize (IH s1 W1). cbv zeta in IH.
       destruct (run_entries s1 rest) as [s2 [cs ans]] eqn:E2. cbn [fst snd] in IH |- *.
-      destruct IH as (W2 & (T2 & L2 & B2) & AA & GA & GC & F2).
-      rewrite T1, L1, B1 in GA, GC. rewrite L1 in F2.
+      destruct IH as (W2 & (T2 & L2 & B2) & AA & GA & GC & F2 & FO).
+      rewrite T1, L1, B1 in GA, GC. rewrite L1 in F2. rewrite O1, rec_sum1_remove in FO.
+      pose proof (isums_nonneg i _ (wf_oq s W)) as HO.
       cbn [item_counts flat_map app]. fold (item_counts rest).
       split; [exact W2|]. split; [repeat split; congruence|].
       split.
       { unfold all_answered in *. cbn [List.length forallb]. rewrite Bool.andb_true_iff in *.
         destruct AA as (A1 & A2). split; [|exact A2]. rewrite Nat.eqb_eq in *. lia. }
       destruct count; cbn [answers_with Bool.eqb].
-      * split; [exact GA|]. split; [constructor; [exact (Hcnt eq_refl)|exact GC]|discriminate].
+      * split; [exact GA|]. split; [constructor; [exact (Hcnt eq_refl)|exact GC]|]. split; [discriminate|lia].
       * destruct (Hall eq_refl) as (G1 & _ & _ & F1).
         split; [constructor; [exact G1|exact GA]|]. split; [exact GC|].
-        intros En. specialize (F2 En). lia.
+        split; [intros En; specialize (F2 En); lia|lia].
     + cbn [sop_of_entry].
       pose proof (drop_step s i true W) as DS. cbv zeta in DS.
       destruct (sstep s (SDrop i true)) as [s1 a] eqn:E1. cbn [fst] in DS.
-      destruct DS as (W1 & (T1 & L1 & B1) & Q1 & _).
+      destruct DS as (W1 & (T1 & L1 & B1) & Q1 & O1).
       specialize (IH s1 W1). cbv zeta in IH.
       destruct (run_entries s1 rest) as [s2 [cs ans]] eqn:E2. cbn [fst snd] in IH |- *.
-      destruct IH as (W2 & (T2 & L2 & B2) & AA & GA & GC & F2).
-      rewrite T1, L1, B1 in GA, GC. rewrite L1, Q1, rec_sum1_remove in F2.
-      pose proof (isums_nonneg i _ (wf_q s W)).
+      destruct IH as (W2 & (T2 & L2 & B2) & AA & GA & GC & F2 & FO).
+      rewrite T1, L1, B1 in GA, GC. rewrite L1, Q1, rec_sum1_remove in F2. rewrite O1, rec_sum1_remove in FO.
+      pose proof (isums_nonneg i _ (wf_q s W)). pose proof (isums_nonneg i _ (wf_oq s W)) as HO.
       cbn [item_counts flat_map app]. fold (item_counts rest).
       split; [exact W2|]. split; [repeat split; congruence|].
       split; [exact AA|]. split; [exact GA|]. split; [exact GC|].
-      intros En. specialize (F2 En). lia.
+      split; [intros En; specialize (F2 En); lia|lia].
 Qed.
 
 Lemma good_answer_clauses isb L G qb : in_int32 G -> good_answer isb L G qb ->
@@ -628,7 +630,11 @@ Lemma count_pair_ok isb L G qb : is_count_pair isb L G qb -> count_ok isb L G (f
 Proof. intros ->. unfold count_ok. cbn [fst snd]. rewrite !Z.eqb_refl. reflexivity. Qed.
 
 Definition bop_ok (o : bop) : Prop :=
-  match o with BSet _ n g => 0 <= n < two31 /\ in_int32 g | _ => True end.
+  match o with
+  | BSet _ n g => 0 <= n < two31 /\ in_int32 g
+  | BOverlap _ _ _ n g => 0 <= n < two31 /\ in_int32 g
+  | _ => True
+  end.
 
 Definition tagged_good (a : Z * Z * Z * Z) : Prop :=
   match a with (l, g, q, b) => in_int32 g /\ good_answer true l g (q, b) end.
@@ -671,6 +677,40 @@ Qed.
 
 Definition cfg_of (s : sstate) : bool * Z * Z := (is_bucket (h_typ s), h_limit s, h_burst s).
 
+(* a batch of reports meets every clause of its row *)
+Lemma report_row_ok s rs s' cs ans : wf s -> run_entries s rs = (s', (cs, ans)) ->
+  report_row (is_bucket (h_typ s)) (h_limit s) (h_burst s) (h_quotas s) rs cs ans (h_quotas s') = all8 /\
+  wf s' /\ same_cfg s s' /\ rec_sum1 (h_oquotas s') <= rec_sum1 (h_oquotas s) /\
+  Forall (good_answer (is_bucket (h_typ s)) (h_limit s) (h_burst s)) (answers_with false (item_counts rs) ans).
+Proof.
+  intros W E. set (isb := is_bucket (h_typ s)).
+  pose proof (run_entries_ok rs s W) as RR. cbv zeta in RR. rewrite E in RR. cbn [fst snd] in RR.
+  destruct RR as (W1 & SC1 & AA & GA & GC & F1 & FO). fold isb in GA, GC.
+  destruct (single_clauses s rs s' cs ans W E) as (S3 & S4).
+  pose proof (wf_burst s W) as WB.
+  split; [|split; [exact W1|split; [exact SC1|split; [exact FO|exact GA]]]].
+  unfold report_row, all8.
+  rewrite AA.
+  rewrite (forallb_Forall _ (fun qb => floor_ok (fst qb)) _
+             (fun qb H => proj1 (good_answer_clauses _ _ _ qb WB H)) GA).
+  rewrite (forallb_Forall _ (fun qb => cap_ok (h_limit s) (fst qb)) _
+             (fun qb H => proj1 (proj2 (good_answer_clauses _ _ _ qb WB H))) GA).
+  rewrite (forallb_Forall _ (fun qb => burst_ok isb (h_limit s) (h_burst s) (fst qb) (snd qb)) _
+             (fun qb H => proj2 (proj2 (good_answer_clauses _ _ _ qb WB H))) GA).
+  rewrite S3, S4.
+  rewrite (forallb_Forall _ _ _ (count_pair_ok isb (h_limit s) (h_burst s)) GC).
+  destruct (answers_with true (item_counts rs) ans) eqn:En; [|reflexivity].
+  assert (rec_sum1 (h_quotas s') <=? Z.max (h_limit s) (rec_sum1 (h_quotas s)) = true) as -> by (specialize (F1 eq_refl); lia).
+  reflexivity.
+Qed.
+
+Lemma quiet_row_ok limit before after : rec_sum1 after <= Z.max limit (rec_sum1 before) ->
+  quiet_row limit before after = all8.
+Proof. intros H. unfold quiet_row, all8. assert (rec_sum1 after <=? Z.max limit (rec_sum1 before) = true) as -> by lia. reflexivity. Qed.
+
+Lemma is_bucket_typ_of bk : is_bucket (typ_of bk) = bk.
+Proof. destruct bk; reflexivity. Qed.
+
 Lemma model_step_ok s o : wf s -> bop_ok o ->
   let isb := is_bucket (h_typ s) in
   let s' := fst (model_step s o) in
@@ -681,57 +721,62 @@ Lemma model_step_ok s o : wf s -> bop_ok o ->
   step_ok isb (h_limit s) (h_burst s) (h_quotas s) (h_oquotas s) o b = all8 /\
   Forall tagged_good (step_answers isb (h_limit s) (h_burst s) o b).
 Proof.
-  intros W OK isb s' b. subst s' b. destruct o as [rs|bk n g|i].
+  intros W OK isb s' b. subst s' b. destruct o as [rs|bk n g|i|first r bk n g].
   - (* reports *)
     cbn [model_step].
-    pose proof (run_entries_ok rs s W) as RR. cbv zeta in RR.
-    pose proof (single_clauses s rs) as SC.
-    destruct (run_entries s rs) as [s1 [cs ans]] eqn:E. cbn [fst snd] in RR |- *.
-    destruct RR as (W1 & (T1 & L1 & B1) & AA & GA & GC & F1). fold isb in GA, GC.
-    destruct (SC s1 cs ans W eq_refl) as (S3 & S4).
+    destruct (run_entries s rs) as [s1 [cs ans]] eqn:E. cbn [fst snd].
+    destruct (report_row_ok s rs s1 cs ans W E) as (ROW & W1 & (T1 & L1 & B1) & _ & GA). fold isb in ROW, GA.
     split; [exact W1|]. split; [unfold cfg_after, cfg_of, isb; congruence|]. split; [reflexivity|]. split; [reflexivity|].
     pose proof (wf_burst s W) as WB.
-    split.
-    + unfold step_ok, all8. cbn [obs_of o_ans o_cur o_quotas].
-      rewrite AA.
-      rewrite (forallb_Forall _ (fun qb => floor_ok (fst qb)) _
-                 (fun qb H => proj1 (good_answer_clauses _ _ _ qb WB H)) GA).
-      rewrite (forallb_Forall _ (fun qb => cap_ok (h_limit s) (fst qb)) _
-                 (fun qb H => proj1 (proj2 (good_answer_clauses _ _ _ qb WB H))) GA).
-      rewrite (forallb_Forall _ (fun qb => burst_ok isb (h_limit s) (h_burst s) (fst qb) (snd qb)) _
-                 (fun qb H => proj2 (proj2 (good_answer_clauses _ _ _ qb WB H))) GA).
-      rewrite S3, S4.
-      assert (CO : forallb (fun qb => count_ok isb (h_limit s) (h_burst s) (fst qb) (snd qb))
-                     (answers_with true (item_counts rs) ans) = true).
-      { apply (forallb_Forall _ _ _ (count_pair_ok isb (h_limit s) (h_burst s)) GC). }
-      rewrite CO.
-      destruct (answers_with true (item_counts rs) ans) eqn:En.
-      * assert (rec_sum1 (h_quotas s1) <=? Z.max (h_limit s) (rec_sum1 (h_quotas s)) = true) as -> by (specialize (F1 eq_refl); lia).
-        reflexivity.
-      * reflexivity.
-    + unfold step_answers. cbn [obs_of o_ans]. destruct isb eqn:Eb; [|constructor].
-      clear -GA WB.
-      induction GA as [|qb r Hq Hr IH]; [constructor|]. cbn [map]. constructor; [|exact IH].
-      unfold tagged_good. split; [exact WB|]. destruct qb; exact Hq.
+    split; [exact ROW|].
+    unfold step_answers. cbn [obs_of o_ans]. destruct isb eqn:Eb; [|constructor].
+    clear -GA WB.
+    induction GA as [|qb r Hq Hr IH]; [constructor|]. cbn [map]. constructor; [|exact IH].
+    unfold tagged_good. split; [exact WB|]. destruct qb; exact Hq.
   - (* schema change *)
     destruct OK as (Hn & Hg). cbn [model_step fst snd].
     destruct (set_step s bk n g W Hn Hg) as (W1 & T1 & L1 & B1 & Q1 & O1).
     split; [exact W1|].
-    split; [unfold cfg_after, cfg_of; rewrite T1, L1, B1; destruct bk; reflexivity|].
+    split; [unfold cfg_after, cfg_of; rewrite T1, L1, B1, is_bucket_typ_of; reflexivity|].
     split; [reflexivity|]. split; [reflexivity|].
     split; [|constructor].
-    unfold step_ok, all8. cbn [obs_of o_quotas]. rewrite Q1. fold isb.
-    destruct (Bool.eqb bk isb);
-      match goal with |- context [?x <=? ?y] => assert (x <=? y = true) as -> by lia end; reflexivity.
+    unfold step_ok; cbv zeta. cbn [obs_of o_quotas]. rewrite Q1. fold isb.
+    apply quiet_row_ok. destruct (Bool.eqb bk isb); lia.
   - (* removal *)
     cbn [model_step fst snd].
     destruct (drop_step s i false W) as (W1 & (T1 & L1 & B1) & Q1 & _).
     split; [exact W1|]. split; [unfold cfg_after, cfg_of, isb; congruence|]. split; [reflexivity|]. split; [reflexivity|].
     split; [|constructor].
-    unfold step_ok, all8. cbn [obs_of o_quotas]. rewrite Q1, rec_sum1_remove.
-    pose proof (isums_nonneg i _ (wf_q s W)).
-    assert (rec_sum1 (h_quotas s) - fsum_i i (h_quotas s) <=? Z.max (h_limit s) (rec_sum1 (h_quotas s)) = true) as -> by lia.
-    reflexivity.
+    unfold step_ok; cbv zeta. cbn [obs_of o_quotas]. rewrite Q1.
+    pose proof (isums_nonneg i _ (wf_q s W)). apply quiet_row_ok. rewrite rec_sum1_remove. lia.
+  - (* a report overlapping a schema change, in either order *)
+    destruct OK as (Hn & Hg). destruct first; cbn [model_step].
+    + (* the report first *)
+      destruct (run_entries s [r]) as [s1 [cs ans]] eqn:E.
+      destruct (report_row_ok s [r] s1 cs ans W E) as (ROW & W1 & (T1 & L1 & B1) & FO & _). fold isb in ROW.
+      destruct (set_step s1 bk n g W1 Hn Hg) as (W2 & T2 & L2 & B2 & Q2 & O2).
+      rewrite T1 in Q2, O2. fold isb in Q2, O2.
+      cbn [fst snd].
+      split; [exact W2|].
+      split; [unfold cfg_after, cfg_of; rewrite T2, L2, B2, is_bucket_typ_of; reflexivity|].
+      split; [reflexivity|]. split; [reflexivity|].
+      split; [|constructor].
+      unfold step_ok; cbv zeta. cbn [obs_of o_quotas o_oquotas o_cur o_ans]. rewrite Q2, O2.
+      destruct (Bool.eqb bk isb).
+      * rewrite ROW. rewrite quiet_row_ok by lia. reflexivity.
+      * rewrite ROW. rewrite quiet_row_ok by lia. reflexivity.
+    + (* the change first *)
+      destruct (set_step s bk n g W Hn Hg) as (W1 & T1 & L1 & B1 & Q1 & O1). fold isb in Q1, O1.
+      destruct (run_entries (fst (sstep s (SSet (typ_of bk) n g))) [r]) as [s2 [cs ans]] eqn:E.
+      destruct (report_row_ok _ [r] s2 cs ans W1 E) as (ROW & W2 & (T2 & L2 & B2) & _ & _).
+      rewrite T1, L1, B1, Q1, is_bucket_typ_of in ROW.
+      cbn [fst snd].
+      split; [exact W2|].
+      split; [unfold cfg_after, cfg_of; rewrite T2, L2, B2, T1, L1, B1, is_bucket_typ_of; reflexivity|].
+      split; [reflexivity|]. split; [reflexivity|].
+      split; [|constructor].
+      unfold step_ok; cbv zeta. cbn [obs_of o_quotas o_oquotas o_cur o_ans].
+      rewrite ROW. rewrite Bool.orb_true_r. reflexivity.
 Qed.
 
 (* ---- the whole trace of one schema ---- *)
@@ -766,7 +811,7 @@ Proof.
     cbn [fst snd] in IH |- *. destruct IH as (-> & GA).
     split; [reflexivity|].
     apply Forall_app. split; [|exact GA].
-    unfold step_answers in ANS. destruct o; [exact ANS|constructor|constructor].
+    unfold step_answers in ANS. destruct o; first [exact ANS|constructor].
 Qed.
 
 Lemma burst_mono_good answers : Forall tagged_good answers -> burst_mono_ok answers = true.
@@ -812,13 +857,26 @@ Qed.
 (* ============================ Part C: several schemas ============================ *)
 Definition wfM (M : mstate) : Prop := Forall (fun ks => wf (snd ks)) (m_schemas M).
 
-Definition mop_ok (o : mop) : Prop :=
-  match o with MSet _ _ n g => 0 <= n < two31 /\ in_int32 g | _ => True end.
+Definition iop_ok (o : iop) : Prop :=
+  match o with
+  | ISet _ _ n g => 0 <= n < two31 /\ in_int32 g
+  | IOverlap _ _ _ _ n g => 0 <= n < two31 /\ in_int32 g
+  | _ => True
+  end.
 
-Fixpoint mtrace (M : mstate) (ops : list mop) : list (list (Z * option (bop * sobs))) :=
+Definition iclients_after (M : mstate) (o : iop) : list Z :=
+  match o with
+  | IReports rs => fold_left (fun l r => zadd (fst r) l) rs (m_clients M)
+  | ISet _ _ _ _ => m_clients M
+  | IRemove i => zremove i (m_clients M)
+  | IOverlap _ r _ _ _ _ => zadd (fst r) (m_clients M)
+  end.
+
+(* the operations as issued; an overlap names the order the lock served its two parts in *)
+Fixpoint mtrace (M : mstate) (ops : list iop) : list (list (Z * option (bop * sobs))) :=
   match ops with
   | [] => []
-  | o :: r => let (M', ms) := mstep_with M (clients_after M o) (issued o) in ms :: mtrace M' r
+  | o :: r => let (M', ms) := mstep_with M (iclients_after M o) o in ms :: mtrace M' r
   end.
 
 Fixpoint find_ms (sid : Z) (ms : list (Z * option (bop * sobs))) : option (option (bop * sobs)) :=
@@ -831,12 +889,15 @@ Fixpoint pick (sid : Z) (tr : list (list (Z * option (bop * sobs)))) : list (bop
   | ms :: r => match find_ms sid ms with Some (Some x) => x :: pick sid r | _ => pick sid r end
   end.
 
-Lemma derive_ok M clients sid o b : mop_ok o -> derive M clients sid (issued o) = Some b -> bop_ok b.
+Lemma derive_ok M clients sid o b : iop_ok o -> derive M clients sid o = Some b -> bop_ok b.
 Proof.
-  destruct o as [rs|sid' t n g|i]; cbn [issued derive]; intros OK E.
+  destruct o as [rs|sid' t n g|i|first r sid' t n g]; cbn [derive]; intros OK E.
   - inversion E; subst. exact I.
   - destruct (sid' =? sid); [|discriminate]. inversion E; subst. exact OK.
   - inversion E; subst. exact I.
+  - destruct (sid' =? sid).
+    + inversion E; subst. destruct (if first then _ else _); exact OK.
+    + destruct (if first then _ else _); [discriminate|]. inversion E; subst. exact I.
 Qed.
 
 Lemma find_map_step (g : Z * sstate -> Z * sstate * option (bop * sobs)) l sid s :
@@ -851,10 +912,10 @@ Proof.
   - apply IH. exact F.
 Qed.
 
-Lemma mstep_schema M cl o sid s : wfM M -> mop_ok o -> find_schema sid (m_schemas M) = Some s ->
-  let r := mstep_with M cl (issued o) in
+Lemma mstep_schema M cl o sid s : wfM M -> iop_ok o -> find_schema sid (m_schemas M) = Some s ->
+  let r := mstep_with M cl o in
   wfM (fst r) /\
-  match derive M (m_extra M + Z.of_nat (List.length cl)) sid (issued o) with
+  match derive M (m_extra M + Z.of_nat (List.length cl)) sid o with
   | Some b => bop_ok b /\ find_schema sid (m_schemas (fst r)) = Some (fst (model_step s b)) /\
               find_ms sid (snd r) = Some (Some (b, snd (model_step s b)))
   | None => find_schema sid (m_schemas (fst r)) = Some s /\ find_ms sid (snd r) = Some None
@@ -863,7 +924,7 @@ Proof.
   intros WM OK F r. subst r. unfold mstep_with. cbn [fst snd m_schemas].
   set (clients := m_extra M + Z.of_nat (List.length cl)).
   set (f := fun ks : Z * sstate =>
-              match derive M clients (fst ks) (issued o) with
+              match derive M clients (fst ks) o with
               | Some b => let (s', ob) := model_step (snd ks) b in (fst ks, s', Some (b, ob))
               | None => (fst ks, snd ks, None)
               end).
@@ -872,37 +933,37 @@ Proof.
     generalize (m_schemas M) as l. induction l as [|[k sk] rest IH]; intros WM; [constructor|].
     inversion WM as [|? ? W1 W2]; subst. cbn [map]. constructor; [|apply IH; exact W2].
     unfold f. cbn [fst snd].
-    destruct (derive M clients k (issued o)) as [b|] eqn:D.
+    destruct (derive M clients k o) as [b|] eqn:D.
     + pose proof (model_step_ok sk b W1 (derive_ok _ _ _ _ _ OK D)) as MS. cbv zeta in MS.
       destruct (model_step sk b) as [s' ob]. cbn [fst snd] in *. exact (proj1 MS).
     + exact W1.
   - clear WM. rewrite !map_map.
     assert (Hk : forall ks, fst (fst (f ks)) = fst ks).
-    { intros [k sk]. unfold f. cbn [fst snd]. destruct (derive M clients k (issued o)); [destruct (model_step sk b)|]; reflexivity. }
+    { intros [k sk]. unfold f. cbn [fst snd]. destruct (derive M clients k o); [destruct (model_step sk b)|]; reflexivity. }
     destruct (find_map_step f (m_schemas M) sid s Hk F) as (F1 & F2). rewrite F1, F2.
     unfold f. cbn [fst snd].
-    destruct (derive M clients sid (issued o)) as [b|] eqn:D.
+    destruct (derive M clients sid o) as [b|] eqn:D.
     + destruct (model_step s b) as [s' ob]. cbn [fst snd].
       split; [exact (derive_ok _ _ _ _ _ OK D)|]. split; reflexivity.
     + split; reflexivity.
 Qed.
 
-Lemma pick_chain ops : forall M sid s, wfM M -> Forall mop_ok ops ->
+Lemma pick_chain ops : forall M sid s, wfM M -> Forall iop_ok ops ->
   find_schema sid (m_schemas M) = Some s -> chain s (pick sid (mtrace M ops)).
 Proof.
   induction ops as [|o rest IH]; intros M sid s WM OK F; [constructor|].
   inversion OK as [|? ? OK1 OK2]; subst. cbn [mtrace].
-  pose proof (mstep_schema M (clients_after M o) o sid s WM OK1 F) as MS. cbv zeta in MS.
-  destruct (mstep_with M (clients_after M o) (issued o)) as [M' ms] eqn:E. cbn [fst snd] in MS.
+  pose proof (mstep_schema M (iclients_after M o) o sid s WM OK1 F) as MS. cbv zeta in MS.
+  destruct (mstep_with M (iclients_after M o) o) as [M' ms] eqn:E. cbn [fst snd] in MS.
   destruct MS as (WM' & H). cbn [pick].
-  destruct (derive M (m_extra M + Z.of_nat (List.length (clients_after M o))) sid (issued o)) as [b|].
+  destruct (derive M (m_extra M + Z.of_nat (List.length (iclients_after M o))) sid o) as [b|].
   - destruct H as (Hb & F' & Hms). rewrite Hms. constructor; [exact Hb|]. apply (IH M'); assumption.
   - destruct H as (F' & Hms). rewrite Hms. apply (IH M'); assumption.
 Qed.
 
 (* every schema of the upstream, over every history of multi-schema reports (refused when an item
    type does not fit), schema changes incl. the item type, and removals *)
-Theorem multi_history_ok M ops sid s : wfM M -> Forall mop_ok ops ->
+Theorem multi_history_ok M ops sid s : wfM M -> Forall iop_ok ops ->
   find_schema sid (m_schemas M) = Some s ->
   hist_ok (is_bucket (h_typ s)) (h_limit s) (h_burst s) (h_quotas s) (h_oquotas s) (pick sid (mtrace M ops)) = all9.
 Proof.
@@ -913,4 +974,18 @@ Proof.
       destruct (Z.eqb_spec k sid) as [->|]; [inversion F; left; reflexivity|right; apply IH; exact F]. }
     exact (WM _ H).
   - apply pick_chain with (M := M); assumption.
+Qed.
+
+(* a report overlapping a change of the schema: whichever of the two the per-upstream lock serves
+   first, the step meets the spec, and afterwards the NEW configuration is in force *)
+Theorem limit_change_overlap_ok s first r bk n g : wf s -> 0 <= n < two31 -> in_int32 g ->
+  let s' := fst (model_step s (BOverlap first r bk n g)) in
+  step_ok (is_bucket (h_typ s)) (h_limit s) (h_burst s) (h_quotas s) (h_oquotas s)
+          (BOverlap first r bk n g) (snd (model_step s (BOverlap first r bk n g))) = all8 /\
+  (is_bucket (h_typ s'), h_limit s', h_burst s') = (bk, n, g) /\ wf s'.
+Proof.
+  intros W Hn Hg s'. subst s'.
+  pose proof (model_step_ok s (BOverlap first r bk n g) W (conj Hn Hg)) as MS. cbv zeta in MS.
+  destruct MS as (W' & CA & _ & _ & ROW & _).
+  split; [exact ROW|]. split; [|exact W']. unfold cfg_after, cfg_of in CA. symmetry. exact CA.
 Qed.
